@@ -260,7 +260,11 @@ pub fn bind_break_stat(
     }
 
     binder.add_antecedent(break_flow_id, current);
-    binder.add_antecedent(binder.break_target_label, break_flow_id);
+    // A `break` in dead code (e.g. after `do return end`) never runs: it must not add an
+    // antecedent-less edge to the code after the loop.
+    if current != binder.unreachable {
+        binder.add_antecedent(binder.break_target_label, break_flow_id);
+    }
     break_flow_id
 }
 
@@ -283,7 +287,9 @@ pub fn bind_continue_stat(
     }
 
     binder.add_antecedent(continue_flow_id, current);
-    binder.add_antecedent(binder.loop_label, continue_flow_id);
+    if current != binder.unreachable {
+        binder.add_antecedent(binder.loop_label, continue_flow_id);
+    }
     continue_flow_id
 }
 
